@@ -227,7 +227,14 @@ def path_environ(seed):
                "data": bytes(rng.randrange(256) for _ in range(1024)) * rng.choice([520, 700])}
         parts = [{"kind": "field", "name": "before", "fname": "", "ctype": "", "data": "x"}, big,
                  {"kind": "field", "name": "after", "fname": "", "ctype": "", "data": "y"}]
-    if rng.random() < 0.4 and seed % 97 != 0:
+    if seed % 291 == 1:
+        # as many parts as the documented default part limit admits (Request.max_form_parts = 1000: "if this is
+        # exceeded" an error is raised, so exactly that many must still come back), or one fewer
+        n = rng.choice([1000, 999, 1000])
+        parts = [{"kind": "field", "name": f"k{i % 37}", "fname": "", "ctype": "", "data": str(i)} for i in range(n)]
+        for j in rng.sample(range(n), 3):
+            parts[j] = {"kind": "file", "name": f"u{j}", "fname": f"f{j}.bin", "ctype": "application/octet-stream", "data": b"\x00\r\n--" + str(j).encode()}
+    if rng.random() < 0.4 and seed % 97 != 0 and seed % 291 != 1:
         parts = [p for p in parts if p["kind"] == "field"]  # -> urlencoded form
     pairs = [(_text(rng), _text(rng)) for _ in range(rng.choice([0, 1, 2, 4]))]
     err, pf, pu, args = "", [], [], []
